@@ -783,8 +783,10 @@ Lemma single_fault_lem : forall s s' f, single_pipeline_step s = (s', Some f) ->
   (icc (im s) = None -> instr_at (prog (im s)) (pc s) = Some (f_instr f)) /\
   has_instr (im s) (pc s) = true.
 Proof.
-  intros s s' f H s0. unfold single_pipeline_step, single_stage in H. cbv zeta in H.
-  cbn [im pc with_cycles with_icount] in H. fold s0 in H.
+  intros s s' f H s0. unfold single_pipeline_step, single_stage in H.
+  set (sc := with_cycles s (cycles s + 1)) in H. cbv zeta in H.
+  change (with_icount sc (icount sc + 1)) with s0 in H.
+  change (pc s0) with (pc s) in H. change (im sc) with (im s) in H. change (pc sc) with (pc s) in H.
   destruct (has_instr (im s) (pc s)) eqn:Eh; [|discriminate H].
   destruct (fetch s0 (pc s)) as [[i|] s1] eqn:Ef; [|discriminate H].
   assert (Hf: f = {| f_addr := pc s; f_instr := i; f_err := f_err f |}).
@@ -800,7 +802,7 @@ Proof.
                 end) as [s3 [e|]]; [|discriminate H].
       injection H as _ <-. reflexivity. }
   rewrite Hf. cbn [f_addr f_instr fst]. split; [reflexivity|]. split; [reflexivity|]. split; [|reflexivity].
-  intros Hc. unfold fetch, im_read in Ef. cbn [im with_icount with_cycles] in Ef. rewrite Hc in Ef.
+  intros Hc. unfold fetch, im_read in Ef. change (im s0) with (im s) in Ef. rewrite Hc in Ef.
   injection Ef as Ei _. exact Ei.
 Qed.
 
